@@ -297,8 +297,10 @@ class Check:
         os.makedirs(evdir, exist_ok=True)
         with open(os.path.join(evdir, f"{self.pid}.json"), "w") as fh:
             json.dump(ev, fh, indent=1, default=str)
-        for w in self.known_seen:
-            print(f"KNOWN-FINDING: property={self.pid} {w}")
+        # every listed open finding of this property is announced (whether or not this
+        # run happened to reproduce it; evidence.known_findings_seen says which it did)
+        for k in self.known:
+            print(f"KNOWN-FINDING: property={self.pid} {k['what']}")
         # concrete violations first; at most a handful of lines
         conc = [v for v in self.violations if not v[2]]
         rest = [v for v in self.violations if v[2]]
